@@ -82,6 +82,7 @@ type Outcome struct {
 	Rets  []Tri  // every boolean result of the return (U for the others)
 	Ended string // return, stop, loop, panic
 	Err   bool   // the return hands out an error that is not nil on this path (error return, not a verdict)
+	RecvParams []int // parameters a receive from which fired in a select on this path (a nil argument rules the path out)
 	Why   string // first unknown condition met on the path (diagnostics)
 }
 
@@ -116,12 +117,13 @@ type pstate struct {
 	decided   map[string]Tri           // unknown conditions already decided on this path, by access path
 	phiVal    map[*ssa.Phi]ssa.Value   // the incoming value each phi took on this path
 	locals    map[*ssa.Alloc]ssa.Value // the last value stored into a local on this path (defer-spilled results, reassigned locals)
+	recvParam map[int]bool             // parameters (by index) a receive from which fired in a select on this path
 	tm        *termer
 }
 
 func newPstate(fr *frame) *pstate {
 	ps := &pstate{vals: map[ssa.Value]Tri{}, ints: map[ssa.Value]int64{}, visited: map[*ssa.BasicBlock]int{},
-		epoch: map[*types.Var]int{}, loadEpoch: map[ssa.Value]int{}, decided: map[string]Tri{}, phiVal: map[*ssa.Phi]ssa.Value{}, locals: map[*ssa.Alloc]ssa.Value{}}
+		epoch: map[*types.Var]int{}, loadEpoch: map[ssa.Value]int{}, decided: map[string]Tri{}, phiVal: map[*ssa.Phi]ssa.Value{}, locals: map[*ssa.Alloc]ssa.Value{}, recvParam: map[int]bool{}}
 	ps.tm = newTermer(fr)
 	ps.tm.localOf = func(al *ssa.Alloc) ssa.Value { return ps.locals[al] }
 	ps.tm.tagOf = func(v ssa.Value) int { return ps.loadEpoch[v] }
@@ -132,6 +134,9 @@ func newPstate(fr *frame) *pstate {
 func (p *pstate) clone(fr *frame) *pstate {
 	q := newPstate(fr)
 	q.hit, q.tag = p.hit, p.tag
+	for k, v := range p.recvParam {
+		q.recvParam[k] = v
+	}
 	for k, v := range p.vals {
 		q.vals[k] = v
 	}
@@ -190,6 +195,8 @@ func (w *Walker) walk(b, pred *ssa.BasicBlock, ps *pstate) { w.walkAt(b, pred, p
 type CallSummary struct {
 	Tag  string
 	Rets []Tri
+	RetI *int64 // the integer constant a single-result helper returns on this way out (an outcome code), if known
+	RecvParams []int // this way out took `case <-param` for these parameters: impossible where the argument is nil
 }
 
 // walkAt continues the walk of block b at instruction index from (0: enter the block normally).
@@ -265,10 +272,34 @@ func (w *Walker) walkAt(b, pred *ssa.BasicBlock, ps *pstate, from int) {
 				// a summarised helper: one continuation per way it can end
 				if w.CallFork != nil {
 					if sums := w.CallFork(x); len(sums) > 0 {
+						// a way out that took `case <-param` cannot happen where the argument is nil on this path
+						var feasible []CallSummary
+						for _, cs := range sums {
+							okWay := true
+							for _, k := range cs.RecvParams {
+								args := x.Call.Args
+								if k < len(args) {
+									if t := ps.tm.of(args[k]); t.Kind == "const" {
+										if kc, isK := t.Val.(*ssa.Const); isK && kc.Value == nil {
+											okWay = false
+										}
+									}
+								}
+							}
+							if okWay {
+								feasible = append(feasible, cs)
+							}
+						}
+						if len(feasible) > 0 {
+							sums = feasible
+						}
 						bind := func(q *pstate, cs CallSummary) {
 							q.tag += cs.Tag
 							if len(cs.Rets) == 1 {
 								q.vals[x] = cs.Rets[0]
+							}
+							if cs.RetI != nil {
+								q.ints[x] = *cs.RetI
 							}
 							for _, r := range *x.Referrers() {
 								if ex, ok := r.(*ssa.Extract); ok && ex.Index < len(cs.Rets) {
@@ -321,6 +352,10 @@ func (w *Walker) walkAt(b, pred *ssa.BasicBlock, ps *pstate, from int) {
 		switch t := last.(type) {
 		case *ssa.Return:
 			o := Outcome{Hit: ps.hit, Tag: ps.tag, Ended: "return", Why: w.why, Err: returnsNonNilError(t)}
+			for k := range ps.recvParam {
+				o.RecvParams = append(o.RecvParams, k)
+			}
+			sort.Ints(o.RecvParams)
 			if w.RetIdx >= 0 && w.RetIdx < len(t.Results) && isBool(t.Results[w.RetIdx].Type()) {
 				o.Ret = w.evalBool(t.Results[w.RetIdx], ps)
 			}
@@ -338,6 +373,8 @@ func (w *Walker) walkAt(b, pred *ssa.BasicBlock, ps *pstate, from int) {
 					iv := c.Int64()
 					o.RetI = &iv
 				} else if iv, ok := ps.ints[t.Results[w.RetIdx]]; ok {
+					o.RetI = &iv
+				} else if iv, ok := w.evalInt(t.Results[w.RetIdx], ps); ok {
 					o.RetI = &iv
 				} else if c, ok := t.Results[w.RetIdx].(*ssa.Call); ok {
 					// the result of a same-module integer helper (threeWay(a < b, a > b)): evaluated
@@ -389,6 +426,7 @@ func (w *Walker) walkAt(b, pred *ssa.BasicBlock, ps *pstate, from int) {
 					c1.decided[key] = T
 					ps.decided[key] = F
 				}
+				noteSelectRecv(t.Cond, c1, ps)
 				w.walk(b.Succs[0], b, c1)
 				w.cur = ps
 				pred, b = b, b.Succs[1]
@@ -396,6 +434,44 @@ func (w *Walker) walkAt(b, pred *ssa.BasicBlock, ps *pstate, from int) {
 		default:
 			w.out = append(w.out, Outcome{Hit: ps.hit, Tag: ps.tag, Ended: "end", Why: w.why})
 			return
+		}
+	}
+}
+
+// noteSelectRecv: cond is `select-index == i` (or != i) for a receive case whose channel is a parameter of the
+// function: the state that takes the case records the parameter.
+func noteSelectRecv(cond ssa.Value, onTrue, onFalse *pstate) {
+	bo, ok := cond.(*ssa.BinOp)
+	if !ok || (bo.Op != token.EQL && bo.Op != token.NEQ) {
+		return
+	}
+	ex, ok := bo.X.(*ssa.Extract)
+	if !ok || ex.Index != 0 {
+		return
+	}
+	sel, ok := ex.Tuple.(*ssa.Select)
+	if !ok {
+		return
+	}
+	k, ok := bo.Y.(*ssa.Const)
+	if !ok || k.Value == nil || k.Value.Kind() != constant.Int {
+		return
+	}
+	i := int(k.Int64())
+	if i < 0 || i >= len(sel.States) || sel.States[i].Dir != types.RecvOnly {
+		return
+	}
+	prm, ok := sel.States[i].Chan.(*ssa.Parameter)
+	if !ok {
+		return
+	}
+	for idx, q := range prm.Parent().Params {
+		if q == prm {
+			if bo.Op == token.EQL {
+				onTrue.recvParam[idx] = true
+			} else {
+				onFalse.recvParam[idx] = true
+			}
 		}
 	}
 }
@@ -1008,7 +1084,21 @@ func pureTerm(t *Term) bool {
 // constant, a loop-free integer helper of the module whose result is the same constant on every
 // path (a three-way comparator), strings.Compare/cmp.Compare of two roles, or a phi that took a constant.
 func (w *Walker) evalInt(v ssa.Value, ps *pstate) (int64, bool) {
+	if iv, ok := ps.ints[v]; ok {
+		return iv, true
+	}
 	switch x := v.(type) {
+	case *ssa.UnOp:
+		// a local that holds the value on this path (results spilled because the function defers)
+		if al, ok := x.X.(*ssa.Alloc); ok && x.Op == token.MUL {
+			if lv := ps.locals[al]; lv != nil && lv != v {
+				return w.evalInt(lv, ps)
+			}
+		}
+	case *ssa.Convert:
+		return w.evalInt(x.X, ps)
+	case *ssa.ChangeType:
+		return w.evalInt(x.X, ps)
 	case *ssa.Parameter:
 		// a parameter of an inlined helper: evaluate the argument in the caller's context
 		if w.parent != nil {
